@@ -143,7 +143,7 @@ def verdict (evs : List Ev) (impl : String) : String :=
 
 def step (line : String) : String :=
   let (op, impl) := splitTab line
-  if op.startsWith "#" then "-\t-\t-" else
+  if op.startsWith "#" || op.startsWith "sched " then "-\t-\t-" else   -- (`sched`: an op of the stream C08Sched, in a replay file)
   match fields op with
   | ["life", _, sc, cl] =>
     match parseScript sc, C02.parseClusters cl with
